@@ -26,3 +26,7 @@ def run(ctx, res):
 
 def replay(ctx, res, v):
     apiobs.replay_api(ctx, res, v, PROP)
+
+
+def attribute(ctx, viols, gate):
+    return apiobs.attribute_api(ctx, viols, gate, PROP)
